@@ -123,7 +123,7 @@ CLAIMED["C18"] = {
 
 CLAIMED["C03"] = {
     "technique": "Lean 4 proofs over an ordered field that the plane / radial pre-selection keeps every cell that contains a sample point, that the pixel footprint of a cell covers every pixel whose sample it contains, and that the painted image is schedule-independent up to face pixels (permutation + interleaving model); selection formulas detected from plot/map.py; correspondence on hand-built AMR meshes incl. face/edge/corner pixels and thread sweeps",
-    "text": "plane_dist / plane_dist_2d / radial_sound (pre-selection soundness), footprint_lo / footprint_hi / footprint_axis / pixHits_of_contains_flat, image_getD / paint_perm / C03_map_events / C03_map / C03_map_pixel (every paint order: a pixel holds the value of a loaded cell containing its sample point, NaN iff none), C03_map_sched / C03_sched (every chunking and interleaving of the prange kernel, faces included) are proved; radial_unsound_witness proves the negation for the pre-selection as it was coded (repaired, fixed entry). Tie: model as coded + Spec on 2-D/3-D AMR Datagroups of 1-4 levels with holes, origins on faces/corners/outside, letters/triples/Vector normals/top/side, dx in six units or omitted, resolutions 1..32 int/dict, scalar and vector layers, exact lane on face-aligned pixels; 1/2/16 numba threads.",
+    "text": "plane_dist / plane_dist_2d / radial_sound (pre-selection soundness), footprint_lo / footprint_hi / footprint_axis / pixHits_of_contains_flat, image_getD / paint_perm / C03_map_events, C03_mask_is_coverage (the row of ones map() bins for the mask is NaN exactly where no loaded cell contains the sample point, whatever the data rows hold - NaN values included) / C03_map / C03_map_pixel (every paint order: a pixel holds the value of a loaded cell containing its sample point, NaN iff none), C03_map_sched / C03_sched (every chunking and interleaving of the prange kernel, faces included) are proved; radial_unsound_witness proves the negation for the pre-selection as it was coded (repaired, fixed entry). Tie: model as coded + Spec on 2-D/3-D AMR Datagroups of 1-4 levels with holes, origins on faces/corners/outside, letters/triples/Vector normals/top/side, dx in six units or omitted, resolutions 1..32 int/dict, scalar and vector layers, exact lane on face-aligned pixels; 1/2/16 numba threads.",
     "note": "partial: theorems are for 3-D data with dx given; 2-D data and the dx-omitted window are covered by the correspondence only; the real numba scheduler is sampled (C03_map_sched is about the interleaving model); np.linspace and the division by dx are modelled (exact lane makes them exact)",
     "design_ref": "5 C03",
 }
